@@ -288,7 +288,7 @@ Lemma ib_call_lambda_args ps b args kwn kwv c :
 Proof.
   intros Hin z Hz. pose proof (ib_in_list c args Hin z Hz) as H. cbn [inner_binders].
   destruct kwn; destruct (inner_binders b);
-    try destruct (Nat.eqb (length ps) (length args) && negb (existsb is_starred args));
+    try destruct (Nat.eqb (length ps) (length args) && negb (existsb is_starred args || has_walrus b));
     repeat rewrite in_app_iff; tauto.
 Qed.
 
@@ -309,13 +309,14 @@ Qed.
 
 (* the parameters count as binders unless the call is certainly inlined *)
 Lemma ib_call_lambda_params ps b args kwn kwv :
-  kwn <> [] \/ inner_binders b <> [] ->
+  kwn <> [] \/ inner_binders b <> [] \/ existsb is_starred args || has_walrus b = true ->
   incl ps (inner_binders (Call (Lambda ps b) args kwn kwv)).
 Proof.
   intros H z Hz. cbn [inner_binders].
   destruct kwn; destruct (inner_binders b) eqn:Hb;
-    try (destruct H as [H|H]; exfalso; apply H; reflexivity);
-    apply in_or_app; left; exact Hz.
+    try (apply in_or_app; left; exact Hz).
+  destruct H as [H|[H|H]]; try (exfalso; apply H; reflexivity).
+  rewrite H. cbn [negb]. rewrite andb_false_r. apply in_or_app; left; exact Hz.
 Qed.
 
 Lemma assoc_combine_some {A} y ps (l : list A) r :
@@ -586,7 +587,7 @@ Section ResSem.
           - intros c Hc. unfold e; cbn [children]. right. apply in_or_app; left; exact Hc.
           - intros c Hc. apply ib_call_lambda_args; exact Hc. }
         (* the call stays: body under the shadow of its own parameters *)
-        assert (Hstay : kwn <> [] \/ inner_binders lb <> [] ->
+        assert (Hstay : kwn <> [] \/ inner_binders lb <> [] \/ existsb is_starred args || has_walrus lb = true ->
                         forall E', map fst E' = lps ->
                           refines (ev (E' ++ E1) lb) (ev (E' ++ E2) (res (shadow lps :: st) lb))).
         { intros Hwhy E' Hdom. apply IH; [exact Hszb | exact Hfob | apply FO_shadow; exact HFOb | |].
@@ -597,12 +598,13 @@ Section ResSem.
         unfold e. cbn [res]. destruct kwn as [|k kwn].
         * destruct (Nat.eqb (length lps) (length args)) eqn:Hlen.
           -- apply Nat.eqb_eq in Hlen.
-             destruct (existsb is_starred args) eqn:Hstar.
-             { (* F30: a starred argument - the call is left; the reference semantics gives it no value *)
-               intros w Hw. exfalso. cbn [eval] in Hw. rewrite (starred_args_no_value E1 args Hstar) in Hw. discriminate. }
+             destruct (existsb is_starred args || has_walrus lb) eqn:Hstar.
+             { (* F30 / F48: a starred argument, an assignment expression in the body - the call is left, its parameters
+                  count as binders that stay *)
+               apply c_call_lambda0; [exact Hargs|]. apply Hstay. right; right; reflexivity. }
              destruct (overlaps (flat_map names_in (map (res st) args)) (inner_binders lb)) eqn:Hov.
              ++ (* FC4: left as a call *)
-                apply c_call_lambda0; [exact Hargs|]. apply Hstay. right. eapply overlaps_true_nonempty; eauto.
+                apply c_call_lambda0; [exact Hargs|]. apply Hstay. right; left. eapply overlaps_true_nonempty; eauto.
              ++ (* inlined *)
                 intros w Hw. cbn [eval] in Hw. apply obind_some in Hw. destruct Hw as [vs [Hvs Hw]].
                 apply obind_some in Hw. destruct Hw as [E' [HE' Hw]].
@@ -787,6 +789,32 @@ Section RwSem.
   Lemma lit_names_child e c : In c (children e) -> lit_names e -> lit_names c.
   Proof. intros Hin H x Hx. apply H. eapply names_child; eauto. Qed.
 
+  (* F42: the theorem is about trees without assignment expressions - the reference semantics has none, and a name
+     they bind would be local to the lambda (on the ignore stack) although the snapshot holds a value for it *)
+  Lemma has_walrus_child e c : In c (children e) -> has_walrus e = false -> has_walrus c = false.
+  Proof.
+    intros Hin H. destruct (has_walrus c) eqn:Hc; [|reflexivity]. exfalso.
+    assert (Hex : forall l, In c l -> existsb has_walrus l = true).
+    { intros l Hl. apply existsb_exists. exists c; split; assumption. }
+    destruct e; cbn [children] in Hin; cbn [has_walrus] in H;
+      repeat match goal with
+             | H : In _ (_ :: _) |- _ => destruct H as [<-|H]
+             | H : In _ (_ ++ _) |- _ => apply in_app_or in H; destruct H as [H|H]
+             | H : In _ [] |- _ => contradiction
+             end;
+      try contradiction;
+      try (rewrite Hc in H; cbn in H; rewrite ?orb_true_r in H; discriminate);
+      try (rewrite (Hex _ Hin) in H; cbn in H; rewrite ?orb_true_r in H; discriminate).
+  Qed.
+
+  Definition lit_ok (e : expr) : Prop := lit_names e /\ has_walrus e = false.
+
+  Lemma lit_ok_child e c : In c (children e) -> lit_ok e -> lit_ok c.
+  Proof. intros Hin [H1 H2]. split; [eapply lit_names_child; eauto | eapply has_walrus_child; eauto]. Qed.
+
+  Lemma lit_ok_lambda ps b : lit_ok (Lambda ps b) -> ps ++ assigned b = ps.
+  Proof. intros [_ H]. cbn [has_walrus] in H. rewrite (no_walrus_no_assigned b H). apply app_nil_r. Qed.
+
   Lemma lit_no_attr c a : lookup_attr ce c a = None.
   Proof. unfold lookup_attr. rewrite Hattr. reflexivity. Qed.
 
@@ -852,17 +880,17 @@ Section RwSem.
   Qed.
 
   Lemma rw_lambda_out st e ps b' r :
-    lit_names e ->
+    lit_ok e ->
     rw ce st e = Ok (Lambda ps b', r) -> exists b rb, e = Lambda ps b /\ rw ce (ps :: st) b = Ok (b', rb).
   Proof.
     intros Hln H. destruct e.
-    - apply rw_name_inv in H; [|apply Hln; left; reflexivity]. destruct H as [(H & _)|(c & H & _)]; discriminate.
+    - apply rw_name_inv in H; [|apply (proj1 Hln); left; reflexivity]. destruct H as [(H & _)|(c & H & _)]; discriminate.
     - cbn [rw] in H. inversion H.
     - destruct (rw_attr_inv _ _ _ _ _ H) as (v' & vr & Hv & _).
       cbn [rw] in H. rewrite Hv in H. cbn [sbind fst snd] in H.
       destruct v'; try (inversion H; fail). destruct (lookup_attr ce c a) as [[| [|] |]|]; try (inversion H; fail).
     - cbn [rw] in H. inv_same H. inversion H.
-    - cbn [rw] in H. inv_same H. inversion H; subst. destruct q as [b1 rb]. eauto.
+    - cbn [rw] in H. rewrite (lit_ok_lambda _ _ Hln) in H. inv_same H. inversion H; subst. destruct q as [b1 rb]. eauto.
     - cbn [rw] in H. inv_same H. inversion H.
     - cbn [rw] in H. inv_same H. inversion H.
     - cbn [rw] in H. inv_same H. inversion H.
@@ -927,13 +955,13 @@ Section RwSem.
   Qed.
 
   Definition rw_ok2 (e : expr) : Prop :=
-    forall st E1 E2 e' r, lit_names e -> Rc st E1 E2 -> rw ce st e = Ok (e', r) -> eqv B ops E1 E2 e e' /\ Q e e' r.
+    forall st E1 E2 e' r, lit_ok e -> Rc st E1 E2 -> rw ce st e = Ok (e', r) -> eqv B ops E1 E2 e e' /\ Q e e' r.
 
   Lemma eqv_of_eq E1 E2 a b : ev E1 a = ev E2 b -> eqv B ops E1 E2 a b.
   Proof. intros H. split; [rewrite H | rewrite <- H]; apply refines_refl. Qed.
 
   Lemma rw_list_eqv n l l' st E1 E2 :
-    (forall e0, size e0 < n -> rw_ok2 e0) -> (forall a, In a l -> size a < n) -> (forall a, In a l -> lit_names a) ->
+    (forall e0, size e0 < n -> rw_ok2 e0) -> (forall a, In a l -> size a < n) -> (forall a, In a l -> lit_ok a) ->
     Rc st E1 E2 ->
     rw_list (rw ce st) l = Ok l' -> Forall2 (eqv B ops E1 E2) l l'.
   Proof.
@@ -944,7 +972,7 @@ Section RwSem.
   Qed.
 
   Lemma rw_list_args n l l' st E1 E2 :
-    (forall e0, size e0 < n -> rw_ok2 e0) -> (forall a, In a l -> size a < n) -> (forall a, In a l -> lit_names a) ->
+    (forall e0, size e0 < n -> rw_ok2 e0) -> (forall a, In a l -> size a < n) -> (forall a, In a l -> lit_ok a) ->
     Rc st E1 E2 ->
     rw_list (rw ce st) l = Ok l' -> Forall2 (arg_eqv B ops E1 E2) l l'.
   Proof.
@@ -952,17 +980,17 @@ Section RwSem.
     induction H as [|a a' l l' [r Ha] _ IHl]; constructor;
       [|apply IHl; intros a0 H0; [apply Hsz | apply Hln]; right; exact H0].
     assert (Hsa : size a < n) by (apply Hsz; left; reflexivity).
-    assert (Hla : lit_names a) by (apply Hln; left; reflexivity).
+    assert (Hla : lit_ok a) by (apply Hln; left; reflexivity).
     destruct (IH a Hsa st E1 E2 a' r Hla HR Ha) as [[Hf Hb] _].
     (* a lambda argument: its body under the parameters *)
     assert (Hbody : forall ps b, a = Lambda ps b -> exists b' rb, a' = Lambda ps b' /\ rw ce (ps :: st) b = Ok (b', rb) /\
                forall Eb, (forall y, In y (map fst Eb) <-> In y ps) -> eqv B ops (Eb ++ E1) (Eb ++ E2) b b').
-    { intros ps b ->. cbn [rw] in Ha. inv_same Ha. destruct q as [b' rb]. inversion Ha; subst.
+    { intros ps b ->. cbn [rw] in Ha. rewrite (lit_ok_lambda _ _ Hla) in Ha. inv_same Ha. destruct q as [b' rb]. inversion Ha; subst.
       exists b', rb. split; [reflexivity | split; [exact Hq|]]. intros Eb Hdom.
       assert (Hsb : size b < n).
       { pose proof (size_child (Lambda ps b) b (or_introl eq_refl)). lia. }
       refine (proj1 (IH b Hsb (ps :: st) _ _ b' rb _ (Rc_ext st E1 E2 ps Eb HR Hdom) Hq)).
-      eapply lit_names_child; [|exact Hla]. left; reflexivity. }
+      eapply lit_ok_child; [|exact Hla]. left; reflexivity. }
     split; apply arg_ok_intro; try assumption.
     - intros x b Hab. destruct (Hbody _ _ Hab) as (b' & rb & -> & _ & Hb'). eexists; split; [reflexivity|].
       intros v. exact (proj1 (Hb' [(x, v)] (fun y => iff_refl _))).
@@ -985,7 +1013,7 @@ Section RwSem.
   Lemma rw_comp n (mk : expr -> list expr -> expr) elt gs st E1 E2 gs' elt' relt :
     (forall e0, size e0 < n -> rw_ok2 e0) ->
     size elt < n -> (forall g, In g gs -> size g < n) -> gs <> [] ->
-    lit_names elt -> (forall g, In g gs -> lit_names g) ->
+    lit_ok elt -> (forall g, In g gs -> lit_ok g) ->
     Rc st E1 E2 ->
     rw_gens (rw ce st) (rw ce (comp_targets gs :: st)) true gs = Ok gs' ->
     rw ce (comp_targets gs :: st) elt = Ok (elt', relt) ->
@@ -1011,11 +1039,11 @@ Section RwSem.
         specialize (H (or_intror (or_intror Ha))). lia. }
       assert (Hext : forall v, Rc ([id] :: st) ((id, v) :: E1) ((id, v) :: E2)).
       { intros v. apply (Rc_ext st E1 E2 [id] [(id, v)] HR). intros y; reflexivity. }
-      assert (Hlg : lit_names (CompFor (Name id) it ifs false)) by (apply Hlgs; left; reflexivity).
-      assert (Hlit : lit_names it).
-      { eapply lit_names_child; [|exact Hlg]. cbn [children]. right; left; reflexivity. }
-      assert (Hlifs : forall a, In a ifs -> lit_names a).
-      { intros a Ha. eapply lit_names_child; [|exact Hlg]. cbn [children]. right; right; exact Ha. }
+      assert (Hlg : lit_ok (CompFor (Name id) it ifs false)) by (apply Hlgs; left; reflexivity).
+      assert (Hlit : lit_ok it).
+      { eapply lit_ok_child; [|exact Hlg]. cbn [children]. right; left; reflexivity. }
+      assert (Hlifs : forall a, In a ifs -> lit_ok a).
+      { intros a Ha. eapply lit_ok_child; [|exact Hlg]. cbn [children]. right; right; exact Ha. }
       destruct (IH it Hsit st E1 E2 it' rit Hlit HR Hq) as [[Hit1 Hit2] _].
       assert (Hifs : forall v, Forall2 (eqv B ops ((id, v) :: E1) ((id, v) :: E2)) ifs q0).
       { intros v. eapply rw_list_eqv; eauto. }
@@ -1055,16 +1083,16 @@ Section RwSem.
     { intros e0 H0. exact (IHn (size e) Hn e0 H0). }
     clear IHn Hn. intros st E1 E2 e' r Hln HR H.
     assert (Hkid : forall c c' rc, In c (children e) -> rw ce st c = Ok (c', rc) -> eqv B ops E1 E2 c c' /\ Q c c' rc).
-    { intros c c' rc Hc Hrw. eapply IH; [apply size_child; exact Hc | eapply lit_names_child; eauto | exact HR | exact Hrw]. }
+    { intros c c' rc Hc Hrw. eapply IH; [apply size_child; exact Hc | eapply lit_ok_child; eauto | exact HR | exact Hrw]. }
     assert (Hkids : forall l l', (forall c, In c l -> In c (children e)) -> rw_list (rw ce st) l = Ok l' ->
                     Forall2 (eqv B ops E1 E2) l l').
     { intros l l' Hl Hrw. eapply (rw_list_eqv (size e)); eauto.
       - intros a Ha. apply size_child. apply Hl; exact Ha.
-      - intros a Ha. eapply lit_names_child; [apply Hl; exact Ha | exact Hln]. }
+      - intros a Ha. eapply lit_ok_child; [apply Hl; exact Ha | exact Hln]. }
     destruct e as [x|c|v a|f args kwn kwv|ps b|o x|o l r0|o es|l cops rs|c t f|es|es|ks vs|v s|elt gs|elt gs|t i ifs asy|c|cls atoms cs].
     - (* Name *)
       pose proof (HR x) as Hx.
-      apply rw_name_inv in H; [|apply Hln; left; reflexivity].
+      apply rw_name_inv in H; [|apply (proj1 Hln); left; reflexivity].
       destruct H as [(-> & -> & Hwhy)|(c & -> & -> & Ha & Hl & Hc)].
       + split; [|left; reflexivity]. apply eqv_of_eq. cbn [eval].
         destruct Hwhy as [Ha|Hl]; [rewrite Ha in Hx; exact Hx|].
@@ -1082,13 +1110,13 @@ Section RwSem.
       assert (Hargs : Forall2 (arg_eqv B ops E1 E2) args q0).
       { eapply (rw_list_args (size (Call f args kwn kwv))); eauto.
         - intros a Ha. apply size_child. cbn [children]. right. apply in_or_app; left; exact Ha.
-        - intros a Ha. eapply lit_names_child; [|exact Hln]. cbn [children]. right. apply in_or_app; left; exact Ha. }
-      assert (Hlf : lit_names f) by (eapply lit_names_child; [|exact Hln]; left; reflexivity).
+        - intros a Ha. eapply lit_ok_child; [|exact Hln]. cbn [children]. right. apply in_or_app; left; exact Ha. }
+      assert (Hlf : lit_ok f) by (eapply lit_ok_child; [|exact Hln]; left; reflexivity).
       assert (Hkw : Forall2 (eqv B ops E1 E2) kwv q1).
       { apply Hkids; [|exact Hq1]. intros c Hc. cbn [children]. right. apply in_or_app; right; exact Hc. }
       destruct f as [op|c0|s m| | lps lb | | | | | | | | | | | | | | ].
       + (* by name *)
-        apply rw_name_inv in Hq; [|apply Hlf; left; reflexivity].
+        apply rw_name_inv in Hq; [|apply (proj1 Hlf); left; reflexivity].
         destruct Hq as [(-> & -> & _)|(c & -> & -> & _ & _ & Hc)].
         * apply cc_call_name; assumption.
         * rewrite (lit_not_keeps c Hc). apply cc_call_name; assumption.
@@ -1100,18 +1128,18 @@ Section RwSem.
         assert (Hss : size s < size (Call (Attr s m) args kwn kwv)).
         { pose proof (size_child (Call (Attr s m) args kwn kwv) (Attr s m) (or_introl eq_refl)).
           pose proof (size_child (Attr s m) s (or_introl eq_refl)). lia. }
-        assert (Hls : lit_names s) by (eapply lit_names_child; [|exact Hlf]; left; reflexivity).
+        assert (Hls : lit_ok s) by (eapply lit_ok_child; [|exact Hlf]; left; reflexivity).
         destruct (IH s Hss st E1 E2 s' sr Hls HR Hs) as [Hevs HQs].
         destruct (Hres HQs) as [-> ->]. apply cc_call_attr; assumption.
       + plain_case Hq.
       + (* called lambda: it stays a called lambda *)
-        cbn [rw] in Hq. inv_same Hq. destruct q as [lb' rlb]. inversion Hq; subst; clear Hq.
+        cbn [rw] in Hq. rewrite (lit_ok_lambda _ _ Hlf) in Hq. inv_same Hq. destruct q as [lb' rlb]. inversion Hq; subst; clear Hq.
         assert (Hsb : size lb < size (Call (Lambda lps lb) args kwn kwv)).
         { pose proof (size_child (Call (Lambda lps lb) args kwn kwv) (Lambda lps lb) (or_introl eq_refl)).
           pose proof (size_child (Lambda lps lb) lb (or_introl eq_refl)). lia. }
         assert (Hb : forall E', map fst E' = lps -> eqv B ops (E' ++ E1) (E' ++ E2) lb lb').
         { intros E' Hdom. refine (proj1 (IH lb Hsb (lps :: st) _ _ lb' rlb _ _ Hq2)).
-          - eapply lit_names_child; [|exact Hlf]. left; reflexivity.
+          - eapply lit_ok_child; [|exact Hlf]. left; reflexivity.
           - apply Rc_ext; [exact HR | intros y; rewrite Hdom; reflexivity]. }
         destruct (arg_eqv_lists B ops _ _ _ _ Hargs) as [Ha1 Ha2].
         destruct (eqv_lists B ops _ _ _ _ Hkw) as [Hk1 Hk2].
@@ -1161,8 +1189,8 @@ Section RwSem.
       + apply size_child. left; reflexivity.
       + intros g0 Hg0. apply size_child. right; exact Hg0.
       + discriminate.
-      + eapply lit_names_child; [|exact Hln]. left; reflexivity.
-      + intros g0 Hg0. eapply lit_names_child; [|exact Hln]. right; exact Hg0.
+      + eapply lit_ok_child; [|exact Hln]. left; reflexivity.
+      + intros g0 Hg0. eapply lit_ok_child; [|exact Hln]. right; exact Hg0.
     - (* GenExp *)
       cbn [rw] in H. destruct gs as [|g gs]; [discriminate|]. inv_same H. destruct q0 as [elt' relt]. inversion H; subst.
       split; [|left; reflexivity]. unfold eqv. cbn [eval].
@@ -1170,8 +1198,8 @@ Section RwSem.
       + apply size_child. left; reflexivity.
       + intros g0 Hg0. apply size_child. right; exact Hg0.
       + discriminate.
-      + eapply lit_names_child; [|exact Hln]. left; reflexivity.
-      + intros g0 Hg0. eapply lit_names_child; [|exact Hln]. right; exact Hg0.
+      + eapply lit_ok_child; [|exact Hln]. left; reflexivity.
+      + intros g0 Hg0. eapply lit_ok_child; [|exact Hln]. right; exact Hg0.
     - (* CompFor on its own: no value *)
       cbn [rw] in H. inv_same H. inversion H; subst. split; [apply cc_none; reflexivity | left; reflexivity].
     - cbn [rw] in H. inversion H; subst. split; [apply cc_none; reflexivity | left; reflexivity].
@@ -1231,17 +1259,17 @@ Qed.
    snapshot (or not at all) and nothing is attribute-folded, the rewritten tree computes in ANY later environment
    exactly what the original computes with the snapshot's values in front of that environment *)
 Theorem rw_sem (B : backend) (ops : list string) ce e e' :
-  ce_attrs ce = [] -> lit_names ce e -> rewrite_captured ce e = Ok e' ->
+  ce_attrs ce = [] -> lit_names ce e -> has_walrus e = false -> rewrite_captured ce e = Ok e' ->
   forall later, eval B ops later e' = eval B ops (vals ce ++ later) e.
 Proof.
-  intros Hattr Hln Hrw later. unfold rewrite_captured in Hrw. apply sbind_ok in Hrw. destruct Hrw as [[e1 r] [Hrw H]].
+  intros Hattr Hln Hnw Hrw later. unfold rewrite_captured in Hrw. apply sbind_ok in Hrw. destruct Hrw as [[e1 r] [Hrw H]].
   inversion H; subst; clear H. cbn [fst].
   set (l := ce_nonlocals ce ++ ce_globals ce).
   assert (Hlv : forall x, lookup_var ce x = assoc x l).
   { intros x. unfold lookup_var, l. rewrite assoc_app. destruct (assoc x (ce_nonlocals ce)); reflexivity. }
   transitivity (eval B ops (firsts [] l ++ later) e).
   - symmetry. apply (eqv_eq B ops (firsts [] l ++ later) later).
-    refine (proj1 (rw_ok2_all B ops ce Hattr (S (size e)) e (Nat.lt_succ_diag_r _) [] _ _ e' r Hln _ Hrw)).
+    refine (proj1 (rw_ok2_all B ops ce Hattr (S (size e)) e (Nat.lt_succ_diag_r _) [] _ _ e' r (conj Hln Hnw) _ Hrw)).
     intros x. cbn [is_arg existsb]. rewrite EvalAgree.lookup_app, lookup_firsts, Hlv. cbn [mem existsb].
     destruct (assoc x l) as [[c|f]|]; try reflexivity. destruct (const_value c); reflexivity.
   - apply eval_agree. intros y Hy. rewrite !EvalAgree.lookup_app, lookup_firsts. cbn [mem existsb].
@@ -1258,11 +1286,12 @@ Qed.
 
 (* the whole callable path on literal snapshots: freeze, then resolve the called lambdas written in the query *)
 Theorem parse_callable_sem (B : backend) (ops : list string) ce e e1 e2 :
-  ce_attrs ce = [] -> lit_names ce e -> rewrite_captured ce e = Ok e1 -> first_order e1 -> resolve_called e1 = Ok e2 ->
+  ce_attrs ce = [] -> lit_names ce e -> has_walrus e = false -> rewrite_captured ce e = Ok e1 -> first_order e1 ->
+  resolve_called e1 = Ok e2 ->
   forall later v, eval B ops (vals ce ++ later) e = Some v -> eval B ops later e2 = Some v.
 Proof.
-  intros Hattr Hln Hrw Hfo Hres later v Hv. unfold resolve_called in Hres. inversion Hres; subst.
-  apply res_sem; [exact Hfo|]. rewrite (rw_sem B ops ce e e1 Hattr Hln Hrw later). exact Hv.
+  intros Hattr Hln Hnw Hrw Hfo Hres later v Hv. unfold resolve_called in Hres. inversion Hres; subst.
+  apply res_sem; [exact Hfo|]. rewrite (rw_sem B ops ce e e1 Hattr Hln Hnw Hrw later). exact Hv.
 Qed.
 
 (* a sufficient, computable condition for [first_order]: no parameter name is the callee of a call by name *)
